@@ -328,7 +328,7 @@ M_COLUMN.harnesses.append(H("u19_hash_column_maintenance_reaches_every_table", "
 M_BTTREE = KModule("btree_tree", "src/btree/btree.rs", "verif_btree_tree", "btree_tree.rs")
 M_BTTREE.harnesses.append(H("u23_root_bookkeeping", "U23", kind="bounded", shape="BTree::write_sorted_changes, one change, scripted child outcome (no-op / root split / root collapse)",
                             bound="one change per call; Node::{change,need_remove_root}, BTree::fetch_root, BTreeTable::{write_node_plan,write_plan_remove_node} by contract"))
-M_DB = KModule("db", "src/db.rs", "verif_db", "db.rs", deps=(M_LOG, M_TABLE, M_INDEX, M_COLUMN))
+M_DB = KModule("db", "src/db.rs", "verif_db", "db.rs", deps=(M_LOG, M_TABLE, M_INDEX, M_COLUMN, M_BTMOD))
 M_DB.harnesses.append(H("u21_replay_applies_only_the_next_record_in_sequence", "U21", kind="bounded",
                         shape="DbInner::enact_logs(validation) on one empty record with arbitrary record id and arbitrary last-enacted id",
                         bound="a database without columns and a record without actions; Log::{read_next,end_read,clear_replay_logs} and LogReader::{next,reset} by contract"))
@@ -337,6 +337,9 @@ M_DB.harnesses.append(H("u24_operations_are_ordered_by_key_only", "U24"))
 for n in ["u30_get_consults_commit_overlay_then_column", "u30_get_size_is_the_length_of_what_get_returns"]:
     M_DB.harnesses.append(H(n, "U30", kind="bounded", shape="DbInner::%s on a database with one hash column; overlay state and column content scripted (arbitrary)" % ("get_size" if "size" in n else "get"),
                             bound="one hash column; CommitOverlay::get_ref, HashColumn::{hash_key,get} by contract"))
+for n in ["u30_btree_get_consults_commit_overlay_then_tree", "u30_btree_get_size_is_the_length_of_what_get_returns"]:
+    M_DB.harnesses.append(H(n, "U30", kind="bounded", shape="DbInner::%s on a database with one btree column; overlay state and tree content scripted (arbitrary)" % ("get_size" if "size" in n else "get"),
+                            bound="one btree column; CommitOverlay::btree_get and BTreeTable::get by contract"))
 for n in ["u31_data_flushed_before_logs_are_reclaimed", "u31_clean_all_logs_flushes_first"]:
     M_DB.harnesses.append(H(n, "U31", kind="bounded", shape="DbInner::%s; dirty-log count, sync_data and flush outcome arbitrary" % ("clean_all_logs" if "all" in n else "clean_logs"),
                             bound="one column; Column::flush, Log::{num_dirty_logs,clean_logs} by contract"))
@@ -480,7 +483,7 @@ PROPS["C07"] = {
 }
 
 PROPS["C04"] = {
-    "kani_units": ["U12", "U23", "U24"],
+    "kani_units": ["U12", "U23", "U24", "U30"],
     "verus_units": ["iter_reposition", "iter_merge"],
     "level": "other",
     "technique": "Kani/CBMC contracts on the real btree node operations (array operations complete over ORDER=8; rebalance with child I/O replaced by contracts)",
@@ -537,7 +540,7 @@ UNIT_META = {
     "U31": {"functions": ["db::DbInner::{clean_logs,clean_all_logs}"], "assumes": ["Column::flush (msync / fsync of every table of the column), Log::num_dirty_logs and Log::clean_logs (truncate and recycle log files) replaced by contracts (recorders)"]},
     "U33": {"functions": ["db::DbInner::kill_logs"], "assumes": ["DbInner::{process_commits,flush_logs,enact_logs,clean_all_logs} and Log::kill_logs replaced by contracts over ghost stage counters: process_commits moves one queued commit into the appending log, flush_logs makes the appending log readable, enact_logs applies one readable record, each reporting whether it did anything"]},
     "U29": {"functions": ["column::HashColumn::{get,get_size}"], "assumes": ["HashColumn::get_in_index replaced by its contract (proved against its own callees by Verus, unit lookup_chain)"]},
-    "U30": {"functions": ["db::DbInner::{get,get_size} (hash column branch)", "db::CommitOverlay::{get,get_size}"], "assumes": ["CommitOverlay::get_ref (std HashMap lookup) replaced by its contract: the latest queued write for the key, if any", "HashColumn::hash_key replaced by a scripted key (the same hashed key must reach overlay and column)", "HashColumn::get replaced by its contract (U29)"]},
+    "U30": {"functions": ["db::DbInner::{get,get_size} (hash column branch and btree column branch)", "db::CommitOverlay::{get,get_size}"], "assumes": ["CommitOverlay::get_ref (std HashMap lookup) replaced by its contract: the latest queued write for the key, if any", "HashColumn::hash_key replaced by a scripted key (the same hashed key must reach overlay and column)", "HashColumn::get replaced by its contract (U29)"]},
     "U26": {"functions": ["log::LogWriter::{insert_index,insert_ref_count}"], "assumes": ["RandomState::new stubbed to fixed keys (hash seeds do not affect map semantics)", "chunk numbers are concrete (5 and 9): the map is the real std HashMap"]},
     "U11": {"functions": ["column::{unpack_node_data,unpack_node_children,packed_node_size,packed_child_count}"], "assumes": []},
     "U14": {"functions": ["table::ValueTable::{clear_slot,next_free,read_next_free,complete_plan,write_remove_plan,clear_chain}"], "assumes": ["LogWriter ghost view"]},
@@ -714,3 +717,4 @@ PROPS["C17"] = {
 }
 PROPS["C07"]["claim"] = PROPS["C07"]["claim"].replace("iter_values visits every value table and reports each live value with its count.", "iter_values visits every value table (bounded) and ValueTable::iter_while reports, for any fill mark, exactly the live values of slots 1..written in slot order with their counts, passes over slots that are not value heads, stops only on the client's request or a read failure, and never swallows a read failure (Verus, unbounded).")
 PROPS["C07"]["does_not_cover"] = ["histories, restarts", "frame of change_ref (other entry bytes untouched)", "the chain reader under iter_while (bounded under C06)", "btree-indexed ref-counted columns"]
+PROPS["C04"]["claim"] = "Point reads: DbInner::get / get_size on a btree column consult the commit overlay first (a queued value wins, a queued removal hides the stored value) and otherwise return what the tree holds, get_size being the length of what get returns (Kani, bounded: overlay lookup and BTreeTable::get by contract). " + PROPS["C04"]["claim"]
